@@ -20,6 +20,8 @@ pub struct Opts {
     pub ver: i32,
     pub legacy: bool,
     pub comp: &'static str,
+    /// zstd compression level (try_with_compression_level)
+    pub level: Option<i32>,
     pub delta: bool,
 }
 
@@ -29,7 +31,8 @@ impl Opts {
         let ver = if rng.chance(30) { 4 } else { 5 };
         let legacy = ver == 4 && rng.chance(40);
         let comp = if ver == 5 { *rng.pick(&["none", "none", "lz4", "zstd"]) } else { "none" };
-        Opts { align, ver, legacy, comp, delta: rng.chance(50) }
+        let level = if comp == "zstd" && rng.chance(50) { Some(*rng.pick(&[1, 3, 9])) } else { None };
+        Opts { align, ver, legacy, comp, level, delta: rng.chance(50) }
     }
     pub fn ipc(&self) -> Result<IpcWriteOptions, ArrowError> {
         let v = if self.ver == 4 { MetadataVersion::V4 } else { MetadataVersion::V5 };
@@ -39,6 +42,7 @@ impl Opts {
             "zstd" => o.try_with_compression(Some(CompressionType::ZSTD))?,
             _ => o,
         };
+        let o = if self.level.is_some() { o.try_with_compression_level(self.level)? } else { o };
         Ok(o.with_dictionary_handling(if self.delta { DictionaryHandling::Delta } else { DictionaryHandling::Resend }))
     }
     pub fn hand(&self) -> &'static str {
